@@ -25,7 +25,10 @@ RULE = (
     "date vs midnight datetime) stored through Row.set_values (start 0 and >0, over empty and pre-filled rows), "
     "Table.set_values (with offset), set_row_values, set_column_values, append_row and Row(...)+set_cells; every position is "
     "read back through get_values / get_value / get_cells, an independent lxml expansion of the serialisation, and after "
-    "save+reload. Non-trivial = value in a corner class (rows: some adjacent pair compares == across types); distinct by "
+    "save+reload. Third family 'overwrite': 2-4 confusable values written one after the other to the same place (Cell.set_value, "
+    "cell.value=, Row/Table.set_value also inside a repeated run, set_values, set_row_values/set_column_values, VarSet, "
+    "UserFieldDecl, user-defined metadata): the last one is read back with its type, no attribute of an earlier type is left, "
+    "neighbours of the run keep the first value. Non-trivial = value in a corner class (rows/overwrite: some adjacent pair compares == across types); distinct by "
     "(label, repr(value))."
 )
 ASSUMPTIONS = [
@@ -363,6 +366,104 @@ def run_rows(case, ctx):
             judge_list("Table rows after save+reload offset", t3.get_values()[1], start)
 
 
+def run_overwrite(case, ctx):
+    """a place that held a value of another type reads back the value written last, with its own type"""
+    from odfdo import Cell, Document, Element, Row, Table
+    from odfdo.variable import UserFieldDecl, VarSet
+
+    seq = [tuple(c) for c in case["seq"]]
+    vals = [v for _k, v in seq]
+    kind, v = seq[-1]
+    if confusable_pair(seq):
+        ctx.nontrivial(("overwrite", repr(seq)))
+    ctx.count("overwrite:len=%d" % len(seq))
+
+    def judge(carrier, got, meta=False):
+        ctx.check(equal(kind, v, got, meta), ("C06", carrier, "overwrite-read-back", kind),
+                  f"{carrier}: wrote {vals!r} one after the other, read back {got!r} ({type(got).__name__})", case)
+
+    with ctx.guard(("C06", "Cell-overwrite", "exception", kind), case):
+        c = Cell(vals[0])
+        for x in vals[1:]:
+            c.set_value(x)
+        judge("Cell.set_value xN", c.get_value())
+        judge("Cell.set_value xN .value", c.value)
+        judge("Cell.set_value xN reparsed", Element.from_tag(c.serialize()).get_value())
+        lexical(ctx, kind, v, odfread.parse_fragment(c.serialize()), ("C06", "Cell-overwrite"), case)
+        others = {"boolean": "office:boolean-value", "float": "office:value", "date": "office:date-value", "time": "office:time-value",
+                  "string": "office:string-value"}
+        el = odfread.parse_fragment(c.serialize())
+        vt = el.get(odfread.q("office:value-type"))
+        left = [a for t_, a in others.items() if t_ != vt and el.get(odfread.q(a)) is not None]
+        ctx.check(not left, ("C06", "Cell-overwrite", "stale-attribute"), f"after {vals!r} the cell (type {vt}) still carries {left}", case)
+        if kind != "none":
+            c2 = Cell(vals[0])
+            for x in vals[1:]:
+                if x is not None:
+                    c2.value = x
+            judge("cell.value= xN", c2.value)
+    with ctx.guard(("C06", "Table-overwrite", "exception", kind), case):
+        r = Row()
+        for x in vals:
+            r.set_value(1, x)
+        judge("Row.set_value xN", r.get_value(1))
+        t = Table("T")
+        for x in vals:
+            t.set_value((1, 1), x)
+        judge("Table.set_value xN", t.get_value((1, 1)))
+        judge("Table.set_value xN get_values", t.get_values()[1][1])
+        tr = Table("R")
+        row = Row()
+        row.append_cell(Cell(vals[0], repeated=3))
+        row.repeated = 3
+        tr.append_row(row)
+        for x in vals[1:]:
+            tr.set_value("B2", x)
+        judge("Table.set_value xN in a repeated run", tr.get_value((1, 1)))
+        ctx.check(equal(seq[0][0], seq[0][1], tr.get_value((0, 1))) and equal(seq[0][0], seq[0][1], tr.get_value((1, 2))),
+                  ("C06", "Table.set_value xN in a repeated run", "neighbour-changed"),
+                  f"neighbours of B2 after {vals!r}: {tr.get_values()!r}", case)
+        ts = Table("S")
+        for x in vals:
+            ts.set_values([[x, 7]], coord=(1, 1))
+        judge("Table.set_values xN", ts.get_value((1, 1)))
+        tn = Table("N")
+        for x in vals:
+            tn.set_row_values(0, [x])
+            tn.set_column_values(0, [x])
+        judge("Table.set_column_values xN", tn.get_value((0, 0)))
+        judge("Table reparsed xN", Element.from_tag(t.serialize()).get_value((1, 1)))
+        judge("Table repeated-run reparsed xN", Element.from_tag(tr.serialize()).get_value((1, 1)))
+    with ctx.guard(("C06", "variables-overwrite", "exception", kind), case):
+        vs = VarSet("v1", value=vals[0])
+        uf = UserFieldDecl("u1", value=vals[0])
+        for x in vals[1:]:
+            vs.set_value(x)
+            uf.set_value(x)
+        judge("VarSet.set_value xN", vs.get_value())
+        judge("VarSet.set_value xN reparsed", Element.from_tag(vs.serialize()).get_value())
+        judge("UserFieldDecl.set_value xN", uf.get_value())
+        judge("UserFieldDecl.set_value xN reparsed", Element.from_tag(uf.serialize()).get_value())
+    if case.get("doc", True):
+        with ctx.guard(("C06", "document-overwrite", "exception", kind), case):
+            doc = Document("spreadsheet")
+            doc.body.clear()
+            doc.body.append(t)
+            doc.body.append(tr)
+            if all(k != "none" for k, _v in seq):
+                for x in vals:
+                    doc.meta.set_user_defined_metadata("key1", x)
+                judge("Meta.user_defined xN", doc.meta.get_user_defined_metadata()["key1"], meta=True)
+            buf = io.BytesIO()
+            doc.save(buf)
+            buf.seek(0)
+            d2 = Document(buf)
+            judge("Table xN after save+reload", d2.body.get_table(0).get_value((1, 1)))
+            judge("Table repeated-run xN after save+reload", d2.body.get_table(1).get_value((1, 1)))
+            if all(k != "none" for k, _v in seq):
+                judge("Meta.user_defined xN after save+reload", d2.meta.get_user_defined_metadata()["key1"], meta=True)
+
+
 def equal_indep(kind, v, g):
     """value decoded by lib.odfread from the written attributes"""
     if kind == "none":
@@ -384,7 +485,9 @@ def equal_indep(kind, v, g):
 
 def replay(case, ctx):
     try:
-        if "cells" in case:
+        if "seq" in case:
+            run_overwrite(case, ctx)
+        elif "cells" in case:
             run_rows(case, ctx)
         else:
             run_case(case, ctx)
@@ -420,3 +523,17 @@ def run_shard(ctx):
         return t
 
     ctx.run_given(mk_rows, ctx.budget(8000, 150000))
+
+    def mk_over():
+        @given(row_values().filter(lambda c: len(c) >= 2).map(lambda c: c[:4]), st.integers(0, 3))
+        def t(seq, d):
+            ctx.ev()
+            case = {"seq": [list(c) for c in seq], "doc": d == 0}
+            try:
+                run_overwrite(case, ctx)
+                ctx.maybe_sample({"seq": [repr(c[1]) for c in seq]}, 499)
+            except Abandon:
+                pass
+        return t
+
+    ctx.run_given(mk_over, ctx.budget(6000, 120000), salt=2)
